@@ -101,7 +101,12 @@ def gen_cloud(rng, dim, n, kind):
     return np.ascontiguousarray(pos)
 
 
-def gen_edges(rng, nb, maxd=5.0, first_zero=None):
+def gen_edges(rng, nb, maxd=5.0, first_zero=None, pos=None):
+    if pos is not None and pos.shape[1] >= 3 and rng.random() < 0.5:
+        # edges that coincide exactly with pair distances: half-open bin semantics [e_i, e_{i+1}) decided at equality
+        dd = np.unique(np.sqrt(((pos[:, :, None] - pos[:, None, :]) ** 2).sum(axis=0)).ravel())
+        if len(dd) >= 2:
+            return np.sort(rng.choice(dd, size=min(len(dd), nb + 1), replace=False))
     e = np.sort(rng.uniform(0, maxd, nb + 1))
     if first_zero if first_zero is not None else rng.random() < 0.5:
         e[0] = 0.0
@@ -149,7 +154,7 @@ def run(ctx):
             tie_broken.append("extraction/driver: " + out[-400:])
     ctx.tie["unstructured_spec/structured_spec/ma_structured_spec"] = "hand-written spec, proved equal to the translated kernel, executed vs the .so (bitwise)"
 
-    n_reps = 5 if thorough else 2
+    n_reps = 6 if thorough else 4
     sizes = [0, 1, 2, 3, 5, 9, 17] + ([33] if thorough else [])
     try:
         # ---- A. spec (extracted, floats) vs compiled kernel, bitwise; and vs brute force
@@ -164,7 +169,8 @@ def run(ctx):
                         if n and rng.random() < 0.6:
                             f[rng.random(size=f.shape) < 0.25] = np.nan
                         nb = int(rng.integers(1, 6))
-                        edges = gen_edges(rng, nb)
+                        edges = gen_edges(rng, nb, pos=pos if kind == "lattice" else None)
+                        nb = len(edges) - 1
                         key = ("unstructured", dim, n, nf, nb, est, kind)
                         ctx.count(key if (n >= 3 and nb >= 2) else None, hist=dict(entry="unstructured", dim=dim, n=n, est=est, cloud=kind))
                         ctx.sample(dict(entry="unstructured", dim=dim, n=n, nf=nf, edges=edges.tolist(), est=est, cloud=kind))
@@ -235,7 +241,8 @@ def run(ctx):
                 f = rng.normal(size=(int(rng.integers(1, 3)), n))
                 f[rng.random(size=f.shape) < 0.15] = np.nan
                 nb = int(rng.integers(1, 5))
-                edges = gen_edges(rng, nb)
+                edges = gen_edges(rng, nb, pos=pos if kind == "lattice" else None)
+                nb = len(edges) - 1
                 nd = int(rng.integers(1, 4))
                 dirs = rng.normal(size=(nd, dim)); dirs /= np.linalg.norm(dirs, axis=1)[:, None]
                 if kind == "lattice" and rng.random() < 0.5:
@@ -268,8 +275,9 @@ def near_edge(pos, edges, dist, dirs=None, tol=None, bw=-1.0, eps=1e-11):
     n = pos.shape[1]
     for j, k in itertools.combinations(range(n), 2):
         d = np.sqrt(((pos[:, j] - pos[:, k]) ** 2).sum()) if dist == "e" else haversine(pos[:, j], pos[:, k])
-        if np.any(np.abs(edges - d) <= eps * max(1.0, d)):
-            return True
+        gap = np.abs(edges - d)
+        if np.any((gap > 0) & (gap <= eps * max(1.0, d))):
+            return True        # near but not equal: rounding may flip the bin; exact ties are decided identically
         if dirs is not None and d > 0:
             v = pos[:, k] - pos[:, j]
             for dd in dirs:
@@ -344,6 +352,36 @@ def e2e(ctx, rng, gs, n_reps):
                                   "row %d of the multi-direction estimate differs from the single-direction estimate" % d,
                                   dict(entry="vario_estimate", tol=tol, duplicate=dup, arrays=describe(f[0], edges, ppos, dirs)), key=key)
                     break
+    # several fields with DIFFERENT missing-value patterns given as masked arrays / NaN / no_data: a value missing in one
+    # field removes exactly that field's pairs
+    for rep in range(4 * n_reps):
+        dim = int(rng.integers(1, 4))
+        n = int(rng.choice([7, 12]))
+        pos = rng.normal(size=(dim, n)) * 2
+        nf = int(rng.integers(2, 4))
+        f = rng.normal(size=(nf, n)) * 3
+        miss = rng.random(size=f.shape) < 0.3
+        miss[:, 0] = False
+        how = ["masked", "nan", "no_data"][int(rng.integers(3))]
+        edges = gen_edges(rng, int(rng.integers(2, 5)), first_zero=True)
+        est = "matheron" if rng.random() < 0.5 else "cressie"
+        kw = {}
+        if how == "masked":
+            inp = [np.ma.array(f[i], mask=miss[i]) for i in range(nf)]
+        elif how == "nan":
+            inp = np.where(miss, np.nan, f)
+        else:
+            inp = np.where(miss, -999.0, f)
+            kw["no_data"] = -999.0
+        ctx.count(("e2e-multifield-missing", dim, n, nf, how, est), hist=dict(entry="vario_estimate-multifield", how=how))
+        _, g, c = gs.vario_estimate(tuple(pos), inp, edges, estimator=est, return_counts=True, **kw)
+        keep = ~miss.all(axis=0)
+        bg, bcnt = brute_unstructured(np.where(miss, np.nan, f)[:, keep], edges, pos[:, keep], est[0])
+        if not ((bcnt == c).all() and rel_close(bg, g)) and not near_edge(pos, edges, "e"):
+            ctx.violation("probe: vario_estimate with per-field missing values vs pair enumeration",
+                          "a value missing in one field (%s) must remove exactly that field's pairs" % how,
+                          dict(entry="vario_estimate", how=how, est=est, arrays=describe(f, edges, pos), missing=miss.tolist(),
+                               expected_counts=bcnt.tolist(), got_counts=np.asarray(c).tolist()), key="vario_estimate:multifield-missing:" + how)
     # general direction sets (acute / obtuse / opposite vectors, 1-4 directions, overlapping or not, unnormalised vectors,
     # bandwidth, the `angles` argument): every row must be the independent enumeration for that direction
     for rep in range(10 * n_reps):
